@@ -22,6 +22,29 @@ CLAIMED = {
                      "attribute-dependence comparison of sibling methods (stdlib ast)",
         "design_ref": "DESIGN.md section 3, C12",
     },
+    "C05": {
+        "text": "Decides structural clauses D1-D5 of C05: every accumulator (area, container, operation) receives the same "
+                "coefficient-weighted term in all four evaluation routines; removals subtract value and evaluations of the popped position "
+                "before the pop, in descending order, and the removed objects reach the subtracting routine; each concrete strategy is "
+                "either incremental with paired removal or resets every accumulator it augments before each evaluation; any construct "
+                "that re-marks or re-evaluates all areas must reset the operation accumulator (three constructs violate this today: "
+                "known findings F-C05-1..3, each confirmed with a concrete doubled result); the dimension-adaptive integral cache is keyed "
+                "by the component it stores. Numerical equality with a from-scratch recomputation is NOT decided.",
+        "technique": "value-term equality across accumulator stores, CFG dominance/pairing inside the removal loop, class-hierarchy "
+                     "resolution of strategy hooks, must-pass-through (reset after re-mark) on the CFG",
+        "design_ref": "DESIGN.md section 3, C05",
+    },
+    "C14": {
+        "text": "Decides structural clauses D1-D4 of C14: the event language of continue_adaptive_refinement allows evaluate-evaluate "
+                "adjacency across a stop/continue, which is harmless only for strategies with the reset discipline (violated for "
+                "extend-split and cell: known finding F-C14-1, both confirmed with concrete runs); save/restore dump the whole instance "
+                "and return the loaded object through the same file parameter and serialiser; all state the continuation reads is stored "
+                "on the instance by the initial call and is not re-initialised by the continuation; the meta container delegates marker "
+                "resets to every per-dimension container. Equality of final structures as values is NOT decided.",
+        "technique": "typestate/event-adjacency on the CFG combined with per-strategy accumulator discipline, attribute "
+                     "read-before-store over a two-call sequence, pairing check of dump/load sites",
+        "design_ref": "DESIGN.md section 3, C14",
+    },
     "C18": {
         "text": "Decides structural clauses D1-D4 of C18 on DataSet: the refusal in concatenate must depend on the other set's scaling "
                 "(violated today: recorded known finding), every scaling attribute written by the scaling methods is carried by "
